@@ -179,13 +179,34 @@ def pmap(fn: Callable, items: Iterable, *, chunksize: int = 1, jobs: Optional[in
             yield val
         return
     import multiprocessing as mp
+    from concurrent.futures import ProcessPoolExecutor, as_completed
+    from concurrent.futures.process import BrokenProcessPool
     ctx = mp.get_context('fork')
-    with ctx.Pool(min(jobs, len(items))) as pool:
-        for kind, val in pool.imap_unordered(_pool_call, [(fn, it) for it in items], chunksize=chunksize):
-            if kind != 'ok':
-                pool.terminate()
-                raise HarnessError(val)
-            yield val
+    chunks = [items[i:i + chunksize] for i in range(0, len(items), chunksize)]
+    # (a ProcessPoolExecutor notices a worker that dies - a multiprocessing.Pool would wait for ever)
+    ex = ProcessPoolExecutor(max_workers=min(jobs, len(chunks)), mp_context=ctx)
+    try:
+        futs = [ex.submit(_pool_chunk, fn, ch) for ch in chunks]
+        for fut in as_completed(futs):
+            try:
+                results = fut.result()
+            except BrokenProcessPool:
+                raise HarnessError('a worker process of the checker died (killed or crashed) while exploring')
+            for kind, val in results:
+                if kind != 'ok':
+                    raise HarnessError(val)
+                yield val
+    finally:
+        ex.shutdown(wait=False, cancel_futures=True)
+        for p in list(getattr(ex, '_processes', {}).values() if getattr(ex, '_processes', None) else []):
+            try:
+                p.terminate()
+            except Exception:  # noqa
+                pass
+
+
+def _pool_chunk(fn, chunk):
+    return [_pool_call((fn, it)) for it in chunk]
 
 
 def rotate(items: list, seed: int) -> list:
